@@ -378,6 +378,7 @@ def slice_with(fv, s, st):
 
 def slice_return(fv, s, st):
     from .symexec import SV
+    pre = st.copy() if (fv.c is not None and getattr(fv.c, 'site_returns', None)) else None
     try:
         nf = len(fv.obligations)
         sv = fv.ev(s.value, st, False) if s.value is not None else SV(P.none, T.NONE)
@@ -386,6 +387,8 @@ def slice_return(fv, s, st):
         # the returned expression may contain sites
         abstract_statement(fv, ast.copy_location(ast.Expr(value=s.value), s), st, str(e))
         sv = fv.E.fresh('ret', ANY)
+    from .calls import site_return_obligations
+    site_return_obligations(fv, s, st, sv, pre)
     fv.returns.append((st.copy(), sv, s))
     st.dead = True
     st.pc = z3.BoolVal(False)
